@@ -66,6 +66,41 @@ def expectedPresent2Order : List String :=
 
 theorem present2_order_tie : NV.Gen.C08.present2Order = expectedPresent2Order := by decide
 
+/-- f_objects with a filter (`Task.objloop`, since the `fix:` commit): collect first, then filter the live ones, then
+    drop the accepted ones that were destructed meanwhile -/
+def expectedObjectsOrder : List String :=
+  ["collect-loop", "collect", "filter-loop", "skip-destructed", "caller-destructed-error", "apply-filter", "apply-failed-return-0", "accept",
+   "drop-destructed-accepted", "build-array"]
+
+theorem objects_order_tie : NV.Gen.C08.objectsOrder = expectedObjectsOrder ∧
+    NV.Gen.C08.objectsFilterSkipCond = "ob->flags & O_DESTRUCTED" := by decide
+
+/-- the two comparison operators of set_heart_beat(ob, 0) that `hbRemove` applies (`cmpOp` evaluates whatever operator
+    the source has; this obligation records the ones the property was checked against) -/
+theorem hb_ops_tie : NV.Gen.C08.hbIdxOp = "<=" ∧ NV.Gen.C08.hbTodoOp = "<" := by decide
+
+/-- prefix lengths of the two hash functions (`hashN`, `lhash` use the generated values) -/
+theorem hash_prefix_tie : NV.Gen.C08.objHashPrefix = 40 ∧ NV.Gen.C08.livingHashPrefix = 20 := by decide
+
+/-- add_action: `nearCg` mirrors the four pointer comparisons, the giver test precedes it (`.aa`) -/
+theorem add_action_cond_tie :
+    NV.Gen.C08.addActionGiverCond = "command_giver == 0 || (command_giver->flags & O_DESTRUCTED)" ∧
+    NV.Gen.C08.addActionNearCond =
+      "ob != command_giver && ob->super != command_giver && ob->super != command_giver->super && ob != command_giver->super" := by
+  decide
+
+/-- find_living_object's filter (`findLivingC`) and user_parser's skip of destructed sentence owners (`.command`) -/
+theorem living_command_cond_tie : NV.Gen.C08.findLivingFilterCond = "!((*obp)->flags & O_ENABLE_COMMANDS)" ∧
+    NV.Gen.C08.userParserSkipCond = "s->ob->flags & O_DESTRUCTED" := by decide
+
+/-- move_object: the cycle test of the walk (`superWalk`) and the re-check after init(dest) (`Task.move`) -/
+theorem move_cond_tie : NV.Gen.C08.moveCycleTest = "ob == item" ∧
+    NV.Gen.C08.moveInitDestRecheck = "(dest->flags & O_DESTRUCTED) || item->super != dest" := by decide
+
+/-- destruct_object: the restriction test (`restricted`) and the "not moved elsewhere" test (`Task.dloop`) -/
+theorem destruct_cond_tie : NV.Gen.C08.destructRestrictCond = "restrict_destruct && restrict_destruct != ob" ∧
+    NV.Gen.C08.destructNestedCond = "otmp == ob->contains" := by decide
+
 /-- the flag bits the walker of the harness tests are the ones of lpc/object.h -/
 theorem flag_bits_tie : NV.Gen.C08.oDestructed = 16 ∧ NV.Gen.C08.oEnableCommands = 4 ∧ NV.Gen.C08.oClone = 8 := by decide
 
